@@ -36,6 +36,7 @@ FoldMap(map, evs, k) ==
          CASE e.op = "add" ->
                 FoldMap([x \in DOMAIN map \cup {<<e.s, e.n>>} |-> IF x = <<e.s, e.n>> THEN e.t ELSE map[x]], evs, k + 1)
            [] e.op = "clear" -> FoldMap(<<>>, evs, k + 1)
+           [] e.op = "same" -> IF e.eq = 1 THEN FoldMap(map, evs, k + 1) ELSE Fail("earlier-result-changed-afterwards", k)
            [] e.op = "decode" ->
                 IF ResOK(e.res, Decode(e.f, map)) THEN FoldMap(map, evs, k + 1) ELSE Fail("decode-with-map", k)
            [] e.op = "retry" ->
